@@ -194,6 +194,8 @@ type sched struct {
 	ended    bool
 	enabledB []*Task
 	candB    []*Task
+
+	endRequested string
 }
 
 //go:norace
@@ -721,6 +723,10 @@ func (s *sched) fireDue() {
 //go:norace
 func (s *sched) schedule() {
 	for {
+		if s.endRequested != "" {
+			s.end("aborted:" + s.endRequested)
+			return
+		}
 		if s.passed >= s.cfg.MaxYields {
 			s.end("yield-budget")
 			return
